@@ -6,7 +6,7 @@ certain time periods (daily, weekly, etc.). Supports both upper and lower limits
 """
 
 from datetime import datetime, timedelta
-from typing import TYPE_CHECKING, Optional, Union
+from typing import TYPE_CHECKING, Any, Optional, Union
 
 if TYPE_CHECKING:
     from scriptplan.core.project import Project
@@ -250,6 +250,11 @@ class Limits:
     def copy(self) -> "Limits":
         """Return a deep copy of this Limits collection."""
         return Limits(self)
+
+    def __deepcopy__(self, memo: dict[int, Any]) -> "Limits":
+        # The limits are copied, the project they belong to is not: copy.deepcopy() would follow the
+        # project reference and clone every task, resource and scenario with each inherited attribute.
+        return self.copy()
 
     def setProject(self, project: "Project") -> None:
         """Set the project reference."""
